@@ -3,6 +3,8 @@
 ID=$1; shift
 cd /repo && [ -z "$(git status --porcelain)" ] || { echo "repo not clean"; exit 2; }
 git apply /verif/seeded/$ID/patch.diff || { echo "patch does not apply"; exit 2; }
+# the evidence files are rewritten by every run: keep the clean-tree ones
+EVBAK=$(mktemp -d); cp -a /verif/evidence/. $EVBAK/
 for C in "$@"; do
   S=$(date +%s)
   OUT=$(cd /verif && ./check $C quick 2>&1); RC=$?
@@ -11,3 +13,4 @@ for C in "$@"; do
 done
 git -C /repo checkout -- .
 rm -f /verif/replays/*
+cp -a $EVBAK/. /verif/evidence/; rm -rf $EVBAK
